@@ -5,6 +5,8 @@
 -/
 import SeedProofs.Global
 import SeedProofs.Lemmas.C01Ctx
+import SeedProofs.Lemmas.C01FnCtx4
+-- audit: Seed.C01.simAll Seed.C01.stmts_sim Seed.C01.stmts_sim_same Seed.C01.prog_sim Seed.C01.prog_outcome_refines Seed.C01.fn_ctx_refines_stmts Seed.C01.fn_ctx_refines_stmts_rel Seed.C01.fn_ctx_refines Seed.C01.fn_ctx_congr_upto Seed.C01.fn_ctx_run Seed.C01.FCtx.plug_rel Seed.C01.uptoEq_not_preserved_by_fn_bodies Seed.C01.results_differ_in_a_body
 -- audit: Seed.C01.exact_ctx_gen Seed.C01.exact_ctx Seed.C01.refines_ctx Seed.C01.uptoEq_ctx Seed.C01.reaches_bind Seed.C01.stmts_append_exact Seed.C01.uptoEq_iff
 namespace Seed.C01
 open Seed.C07 (FuelEq)
@@ -216,3 +218,17 @@ example (c lhs iter : Expr) (bs : List Branch) (a b : Stmt) (σ : State) (sc : L
   stmt_ctx_congr_upto (.whileBody c (.ifElse bs (.forBody lhs iter (.seq [a] .hole [b])))) true_stmt_skip σ sc
 
 end Seed.C01
+
+/-! ### contexts through function bodies (third session; `Lemmas/C01FnCtx*.lean`)
+
+`stmt_ctx_congr_upto` stops at function bodies because a body is not run where it stands: it is stored in a heap cell and run
+at the calls.  `fn_ctx_congr_upto` closes this: for EVERY one-hole context `K : FCtx` — all of `SCtx`, the bodies and parameter
+patterns of `fn` statements and function literals, every expression position, at any depth — and statement lists `s`, `t` that
+are equivalent up to fuel, the programs `K[s]` and `K[t]` have the same outcomes (stdout, exit status, stderr): every outcome
+other than a time-out that one reaches, the other reaches.  The proof is a simulation over all 23 evaluator functions
+(`simAll`): the two runs go through states that are equal except for the CODE stored in function cells (`wb β σ`), which is
+related by "same syntax except `s` for `t` at any number of positions"; no hypothesis about related states is needed, because
+the left occurrence of `s` is first matched by the right run of the same `s` and the equivalence is applied inside the right
+state.  The conclusion is about outcomes and not about result states, and that cannot be improved:
+`uptoEq_not_preserved_by_fn_bodies` (the stored code itself differs).  Not covered: a hole inside the TEXT of an interpolated
+literal (slot expressions are parsed at run time from the text). -/
